@@ -320,11 +320,28 @@ def run_blocks(item):
         e = Expr(expand_numer(sympify(it.expand_itmd(fully_expand=True).sympy)))
         T = get_symbols(tstr)
         res["in"] = f"Intermediates().{name}.allowed_spin_blocks"
+    elif kind == "ladder":
+        # V without target indices between two amplitudes that carry the targets i j a b:
+        # the search for a valid spin combination has to back-track over the first choices
+        from itertools import permutations
+        from adcgen.sympy_objects import AntiSymmetricTensor, Amplitude
+        i, j, k, l = get_symbols("ijkl")
+        a, b, c, d = get_symbols("abcd")
+        amps = [(((a, b), (k, l)), ((c, d), (i, j))), (((a, c), (i, k)), ((b, d), (j, l))),
+                (((a, c), (k, l)), ((b, d), (i, j))), (((a, b), (i, k)), ((c, d), (j, l)))]
+        fam = [(am, pm) for am in amps for pm in permutations((k, l, c, d))]
+        am, pm = fam[sd % len(fam)]
+        nm1, nm2 = rng.choice([("t1", "t1"), ("t1", "t2"), ("t2", "t1cc")])
+        raw = (AntiSymmetricTensor("V", pm[:2], pm[2:]) * Amplitude(nm1, *am[0]) * Amplitude(nm2, *am[1]))
+        T = [i, j, a, b]
+        if raw is S.Zero:
+            return {"status": "skipped", "item": item}
     else:
         try:
             raw, T = gen_expr(rng, closed=True)
         except RuntimeError:
             return {"status": "skipped", "item": item}
+    if kind != "itmd":
         if raw is S.Zero or not consistent_bks(raw) or not T:
             return {"status": "skipped", "item": item}
         e = Expr(raw)
@@ -389,6 +406,7 @@ def main():
     results = pmap(run_integrate, items, limit=200 if quick else 900)
     nb = 150 if quick else 1500
     bitems = [("expr" if k % 3 else "itmd", base + 9000 + k) for k in range(nb)]
+    bitems += [("ladder", base + 9500 + 7 * k) for k in range(40 if quick else 96)]
     bres = pmap(run_blocks, bitems, limit=300 if quick else 1200)
     for part, rs in (("integrate", results), ("blocks", bres)):
         for r in rs:
